@@ -144,8 +144,9 @@ MaxOper(s) ==
 
 \* bag with every zero-bucket token counted as the value 0
 CBag(bag) ==
-  LET D == {CV(v) : v \in DOMAIN bag}
-  IN [x \in D |-> SumOn(bag, {v \in DOMAIN bag : CV(v) = x})]
+  LET Z  == {v \in DOMAIN bag : IsZeroClass(v)}
+      NZ == (DOMAIN bag) \ Z
+  IN [x \in NZ \cup (IF Z # {} THEN {0} ELSE {}) |-> IF x = 0 THEN SumOn(bag, Z) ELSE bag[x]]
 
 \* exact (un-collapsed) content of a side implied by the absorbed tokens
 SideContent(bag, side) ==
